@@ -37,10 +37,21 @@ import (
 //     Pause call, and no simulated time passes in that window. It is counted
 //     (probe) but not reported.
 //
-// Where the statement is silent the monitor is lenient: with overlapping
-// attempts, k may be anything between the number of failed and the number of
-// started attempts of the chain; operations that take effect at the same
-// simulated instant as an attempt start are treated as concurrent with it.
+// Where the statement is silent the monitor is lenient:
+//   * with overlapping attempts, k may be anything between the number of failed
+//     and the number of started attempts of the chain (sLo..fHi below);
+//   * operations at the same simulated instant are treated as concurrent (their
+//     linearisation order is not observable from outside): a trigger that
+//     arrives at the instant of an attempt start is not consumed by that start,
+//     a trigger that arrives at the instant of a reset survives the reset, an
+//     attempt that starts at the instant of a reset may still be justified by
+//     the triggers and the k of the chain that was reset;
+//   * an attempt that started before a reset (or at its instant) and ends after
+//     it counts towards the upper bound of k only; its success does not have to
+//     end the new chain;
+//   * overlapping attempts for one address are not reported (probe only): the
+//     statement does not forbid them.
+// The monitor never demands that an attempt happens (safety only).
 
 type backoff struct {
 	initial, max time.Duration
@@ -78,20 +89,25 @@ type cand struct {
 	t      time.Duration
 	kind   string
 	paused bool          // arrived while definitely paused
+	kLo    int           // lower bound of k when the trigger arrived (it may have taken effect before a concurrent attempt start)
 	deadAt time.Duration // -1: live; otherwise the instant it was cleared by a reset / success
 }
 
 type addrState struct {
-	name      string
-	fails     int // failed attempts of the current chain
-	starts    int // started attempts of the current chain
-	ghostLo   int // k range of the chain ended at ghostAt (same-instant tolerance)
-	ghostHi   int
-	ghostAt   time.Duration
-	inflight  int
-	slot      []cand
-	connected bool
-	nAttempts int
+	name string
+	// Bounds on the number of started / failed attempts of the current chain.
+	// Lo counts only attempts that surely belong to it; Hi also counts attempts
+	// that may belong to the previous chain (started at the instant of a reset,
+	// or started before a reset and finished after it).
+	sLo, sHi, fLo, fHi int
+	epoch              int // number of chain resets so far
+	ghostLo            int // k range of the chain ended at ghostAt (same-instant tolerance)
+	ghostHi            int
+	ghostAt            time.Duration
+	inflight           int
+	slot               []cand
+	connected          bool
+	nAttempts          int
 }
 
 type oracle struct {
@@ -118,7 +134,8 @@ func (a *addrState) liveSlot() int {
 }
 
 func (a *addrState) add(o *oracle, kind string) {
-	a.slot = append(a.slot, cand{t: simrt.Elapsed(), kind: kind, paused: o.pausedDefinite, deadAt: -1})
+	lo, _ := a.krange()
+	a.slot = append(a.slot, cand{t: simrt.Elapsed(), kind: kind, paused: o.pausedDefinite, deadAt: -1, kLo: lo})
 }
 
 func (o *oracle) scheduleInvoke(a *addrState) {
@@ -134,11 +151,28 @@ func (o *oracle) driverDialFailed(a *addrState) {
 	a.add(o, "driver-connect-failed")
 }
 
+// attempt is the token of one running attempt.
+type attempt struct {
+	epoch     int
+	ambiguous bool // started at the instant of a reset: may belong to either chain
+}
+
+func (a *addrState) krange() (int, int) {
+	lo, hi := a.sLo, a.sHi
+	if a.fLo < lo {
+		lo = a.fLo
+	}
+	if a.fHi > hi {
+		hi = a.fHi
+	}
+	return lo, hi
+}
+
 // resetReturn ends the chain of a (Cancel / Reset / ResetAll returned, or an attempt succeeded).
 func (o *oracle) resetReturn(a *addrState, why string) {
 	now := simrt.Elapsed()
 	simrt.Eventf("chain reset addr=%s why=%s seq=%d", a.name, why, simrt.Seq())
-	lo, hi := minmax(a.fails, a.starts)
+	lo, hi := a.krange()
 	if a.ghostAt == now {
 		if a.ghostLo < lo {
 			lo = a.ghostLo
@@ -148,19 +182,18 @@ func (o *oracle) resetReturn(a *addrState, why string) {
 		}
 	}
 	a.ghostLo, a.ghostHi, a.ghostAt = lo, hi, now
-	a.fails, a.starts = 0, 0
+	a.sLo, a.sHi, a.fLo, a.fHi = 0, 0, 0, 0
+	a.epoch++
 	for i := range a.slot {
-		if a.slot[i].deadAt < 0 {
-			a.slot[i].deadAt = now
+		c := &a.slot[i]
+		if c.deadAt >= 0 {
+			continue
 		}
+		if c.t == now {
+			continue // arrived at this very instant: may take effect after the reset
+		}
+		c.deadAt = now
 	}
-}
-
-func minmax(x, y int) (int, int) {
-	if x < y {
-		return x, y
-	}
-	return y, x
 }
 
 func (o *oracle) pauseInvoke() {
@@ -210,7 +243,7 @@ func (o *oracle) predictFor(a *addrState, variant int) (time.Duration, bool) {
 		if c.deadAt >= 0 || c.paused {
 			continue
 		}
-		d := o.b.base(a.starts)
+		d := o.b.base(a.sHi)
 		if variant == 1 {
 			d = d - d*o.b.jitter
 		}
@@ -231,13 +264,14 @@ func (o *oracle) predictTimer(variant int) (time.Duration, bool) {
 	return best, found
 }
 
-func (o *oracle) attemptStart(a *addrState) {
+func (o *oracle) attemptStart(a *addrState) attempt {
 	now := simrt.Elapsed()
 	a.nAttempts++
-	simrt.Eventf("attempt start addr=%s n=%d seq=%d inflight=%d fails=%d starts=%d paused=%v", a.name, a.nAttempts, simrt.Seq(), a.inflight, a.fails, a.starts, o.pausedDefinite)
+	tok := attempt{epoch: a.epoch, ambiguous: a.ghostAt == now}
+	simrt.Eventf("attempt start addr=%s n=%d seq=%d inflight=%d fails=%d..%d starts=%d..%d paused=%v", a.name, a.nAttempts, simrt.Seq(), a.inflight, a.fLo, a.fHi, a.sLo, a.sHi, o.pausedDefinite)
 	if o.stopped {
 		a.inflight++
-		return
+		return tok
 	}
 	if a.inflight > 0 {
 		simrt.Probe("overlapping_attempts_same_addr") // (3): the statement does not forbid it; reach only
@@ -276,7 +310,7 @@ func (o *oracle) attemptStart(a *addrState) {
 	}
 
 	// (2) the start must be justified by a pending trigger with the right delay
-	lo, hi := minmax(a.fails, a.starts)
+	lo, hi := a.krange()
 	if a.ghostAt == now {
 		if a.ghostLo < lo {
 			lo = a.ghostLo
@@ -288,13 +322,17 @@ func (o *oracle) attemptStart(a *addrState) {
 	if len(a.slot) == 0 {
 		simrt.Failf("unjustified-attempt", "no pending trigger",
 			"attempt %d for %s started at t=%v with no Schedule call and no failed attempt pending since the last attempt start / success / reset (in flight: %d, failed so far in this chain: %d)",
-			a.nAttempts, a.name, now, a.inflight, a.fails)
+			a.nAttempts, a.name, now, a.inflight, a.fHi)
 	}
 	okK, early, late := -1, false, false
 	var used cand
 search:
 	for i := len(a.slot) - 1; i >= 0; i-- {
-		for k := lo; k <= hi; k++ {
+		clo := lo
+		if a.slot[i].kLo < clo {
+			clo = a.slot[i].kLo
+		}
+		for k := clo; k <= hi; k++ {
 			switch o.b.fits(now-a.slot[i].t, k) {
 			case 0:
 				okK, used = k, a.slot[i]
@@ -326,38 +364,53 @@ search:
 	if gap := float64(now - used.t); math.Abs(gap-o.b.base(okK)) > tolerance {
 		simrt.Probe("jitter_observed")
 	}
-	if used.kind == "schedule" && a.starts > 0 {
+	if used.kind == "schedule" && a.sHi > 0 {
 		simrt.Probe("delay_restarted_by_schedule")
 	}
-	if used.kind == "failure" && a.starts == 0 && a.fails > 0 {
-		simrt.Probe("retry_after_reset_by_old_attempt")
-	}
 
-	// consume the slot: everything pending justified this one attempt. Schedule
-	// calls made at this very instant are concurrent with the start and stay.
+	// consume the slot: everything pending justified this one attempt. Triggers
+	// that arrived at this very instant are concurrent with the start (the
+	// decision to start may have preceded them) and stay.
 	kept = a.slot[:0]
 	for _, c := range a.slot {
-		if c.deadAt < 0 && c.kind == "schedule" && c.t == now {
+		if c.deadAt < 0 && c.t == now {
 			kept = append(kept, c)
 		}
 	}
 	a.slot = kept
-	a.starts++
+	a.sHi++
+	if !tok.ambiguous {
+		a.sLo++
+	}
 	a.inflight++
+	return tok
 }
 
-func (o *oracle) attemptEnd(a *addrState, ok bool) {
+func (o *oracle) attemptEnd(a *addrState, tok attempt, ok bool) {
 	a.inflight--
-	simrt.Eventf("attempt end addr=%s ok=%v seq=%d inflight=%d", a.name, ok, simrt.Seq(), a.inflight)
+	sure := tok.epoch == a.epoch && !tok.ambiguous
+	simrt.Eventf("attempt end addr=%s ok=%v seq=%d inflight=%d current-chain=%v", a.name, ok, simrt.Seq(), a.inflight, sure)
 	if o.stopped {
 		return
 	}
 	if ok {
 		simrt.Probe("attempt_succeeded")
-		o.resetReturn(a, "success")
+		if sure {
+			o.resetReturn(a, "success")
+		} else {
+			// success of an attempt of an earlier chain: the implementation may or
+			// may not end the current chain
+			simrt.Probe("old_attempt_succeeded_after_reset")
+			a.sLo, a.fLo = 0, 0
+		}
 		return
 	}
-	a.fails++
+	a.fHi++
+	if sure {
+		a.fLo++
+	} else {
+		simrt.Probe("old_attempt_failed_after_reset")
+	}
 	if o.pausedDefinite {
 		simrt.Probe("attempt_failed_while_paused")
 	}
